@@ -42,6 +42,7 @@ Definition Rn : GroupOps F := {|
   g_smallAdj := rn_zero; g_generator := rn_generator; g_vee := rn_vee;
   g_bracket := fun _ _ => vzero n;
   g_innerweights := inner_weights_generic n (S n) rn_generator;
-  g_trandom := fun u => u
+  g_trandom := fun u => u;
+  g_grandom := fun u => rn_exp u
 |}.
 End Rn.
